@@ -1,6 +1,8 @@
 import Vorbis.File.Model
+import Vorbis.Proofs.DecHalf
+import Vorbis.Props.C04
 namespace Vorbis.Props.C20
-open Vorbis Vorbis.File Vorbis.Block
+open Vorbis Vorbis.File Vorbis.Block Vorbis.Props.C04
 
 /-- switching half-rate on is refused exactly when some link has short blocks of 64 samples or fewer,
     a refused call leaves every link at full rate, an accepted one sets the flag asked for -/
@@ -41,5 +43,88 @@ theorem C20_seek_target_even (pos : Int) :
     shl (shr pos 1) 1 ≤ pos ∧ pos - 1 ≤ shl (shr pos 1) 1 ∧ shl (shr pos 1) 1 % 2 = 0 ∧ shl (shr pos 0) 0 = pos := by
   simp [shl, shr]
   omega
+
+theorem decode_rest_h (z : Sizes) (s : SzHalf z) (N : Int) (l : List (Pkt × Bool))
+    (d : Dec) (lW : Bool) (c seq : Int) (st : DecSt z d lW c seq) (hce : c % 2 = 0)
+    (hc : Coherent z N false lW c seq l) :
+    sum (Dec.drainAll z 1 d (toBlks l)) = (N + 1) / 2 - c / 2 := by
+  induction l generalizing d lW c seq with
+  | nil => simp [Coherent] at hc
+  | cons pv rest ih =>
+    obtain ⟨p, vis⟩ := pv
+    cases rest with
+    | nil =>
+      simp only [Coherent, Bool.false_eq_true, if_false] at hc
+      obtain ⟨he, hv, hs, hg, hN0, hN1⟩ := hc
+      subst hv
+      have := step_last_h z s d lW c seq N st (p.toBlk true) rfl (by simp [Pkt.toBlk, hs])
+        (by simp [Pkt.toBlk, he]) (by simp [Pkt.toBlk, hg]) hN0 (by simpa [Pkt.toBlk] using hN1)
+      have ⟨hae, ha⟩ := adv_even z s lW (p.toBlk true).W
+      rw [toBlks_cons, sum_drain_cons, this]
+      simp only [toBlks, List.map_nil, Dec.drainAll, sum]
+      generalize adv z lW (p.toBlk true).W = a at *
+      omega
+    | cons q rest' =>
+      simp only [Coherent, Bool.false_eq_true, if_false] at hc
+      obtain ⟨he, hs, hg, hrest⟩ := hc
+      have hgp : (p.toBlk vis).gp = -1 ∨ (p.toBlk vis).gp = c + adv z lW (p.toBlk vis).W := by
+        cases vis <;> simp [Pkt.toBlk, hg]
+      have sm := step_mid_h z s d lW c seq st (p.toBlk vis) rfl (by simp [Pkt.toBlk, hs])
+        (by simp [Pkt.toBlk, he]) hgp
+      have ⟨hae, ha⟩ := adv_even z s lW (p.toBlk vis).W
+      have ihr := ih _ _ _ _ sm.2 (by omega) (by simpa [Pkt.toBlk] using hrest)
+      rw [toBlks_cons, sum_drain_cons, ihr, sm.1]
+      simp only [Pkt.toBlk] at *
+      generalize adv z lW p.W = a at *
+      omega
+
+/-- **half-rate decoding delivers ceil(N/2) samples**: for every pair of block sizes from 64 up (quarter sizes even), every `N ≥ 0`,
+    every packet sequence of the encoder's shape and every way Ogg paging hides granule positions, draining the half-rate decoder
+    after each packet delivers exactly `(N+1)/2` samples in total -/
+theorem C20_halfrate_total (z : Sizes) (s : SzHalf z) (N : Int) (seq0 : Int)
+    (hseq : 0 ≤ seq0) (l : List (Pkt × Bool)) (hc : Coherent z N true false 0 seq0 l) :
+    sum (Dec.drainAll z 1 (Dec.restart z 1) (toBlks l)) = (N + 1) / 2 := by
+  cases l with
+  | nil => simp [Coherent] at hc
+  | cons pv rest =>
+    obtain ⟨p, vis⟩ := pv
+    cases rest with
+    | nil =>
+      simp only [Coherent, if_true] at hc
+      obtain ⟨he, hv, hs, hg, hN0, hN1⟩ := hc
+      have hN : N = 0 := by omega
+      subst hv
+      have sf := step_first_h z s.p1 (p.toBlk true) rfl (by simp [Pkt.toBlk, hg, hN]) (by simp [Pkt.toBlk, hs, hseq])
+      rw [toBlks_cons, sum_drain_cons, sf.1]
+      simp [toBlks, Dec.drainAll, sum, hN]
+    | cons q rest' =>
+      simp only [Coherent, if_true] at hc
+      obtain ⟨he, hs, hg, hrest⟩ := hc
+      have hgp : (p.toBlk vis).gp = -1 ∨ (p.toBlk vis).gp = 0 := by
+        cases vis <;> simp [Pkt.toBlk, hg]
+      have sf := step_first_h z s.p1 (p.toBlk vis) rfl hgp (by simp [Pkt.toBlk, hs, hseq])
+      have hst : DecSt z ((Dec.blockin z 1 (Dec.restart z 1) (p.toBlk vis)).fst.read 0).fst p.W 0 (seq0 + 1) := by
+        simpa [Pkt.toBlk, hs] using sf.2
+      have hr := decode_rest_h z s N (q :: rest') _ p.W 0 (seq0 + 1) hst (by decide) hrest
+      rw [toBlks_cons, sum_drain_cons, sf.1, hr]
+      omega
+
+/-- encode then decode at half rate: every encoder run (any partition of the input, any answers of the envelope search) that accepted
+    `N` samples is decoded, at half rate, to exactly `(N+1)/2` samples — for every page layout -/
+theorem C20_encode_then_halfrate (z : Sizes) (s : SzOk z) (sh : SzHalf z) (pre post : List EncOp) (n0 : Int) (hn0 : n0 ≤ 0)
+    (hpre : ∀ op ∈ pre, DataOp op) (hpost : ∀ op ∈ post, DrainOp op)
+    (hdone : (Enc.run z (Enc.init z) (pre ++ [EncOp.wrote n0] ++ post)).1.eof = -1) (vis : Pkt → Bool) :
+    ∃ mids last,
+      (Enc.run z (Enc.init z) (pre ++ [EncOp.wrote n0] ++ post)).2 = mids ++ [last] ∧
+      sum (Dec.drainAll z 1 (Dec.restart z 1) (toBlks (mids.map (fun q => (q, vis q)) ++ [(last, true)])))
+        = (accepted z (Enc.init z) pre + 1) / 2 := by
+  obtain ⟨mids, last, hout, hcoh, _⟩ := C04_encode_coherent z s pre post n0 hn0 hpre hpost hdone vis
+  exact ⟨mids, last, hout, C20_halfrate_total z sh _ 3 (by decide) _ hcoh⟩
+
+/-- non-vacuity: 256/2048 blocks meet the size hypothesis; a three-packet stream of 901 samples (block centres 0, 576, 1152, end trimmed to 901)
+    delivers 451 -/
+example : SzHalf { bs0 := 256, bs1 := 2048 } := ⟨by decide, by decide, by decide, by decide⟩
+example : sum (Dec.drainAll { bs0 := 256, bs1 := 2048 } 1 (Dec.restart { bs0 := 256, bs1 := 2048 } 1)
+    [{ W := false, gp := 0, eos := false, seq := 3 }, { W := true, gp := -1, eos := false, seq := 4 }, { W := false, gp := 901, eos := true, seq := 5 }]) = 451 := by decide
 
 end Vorbis.Props.C20
